@@ -597,7 +597,7 @@ fn run(args: &Args) {
                 Err(()) => {
                     c10.push(format!("request {} panicked", coq));
                     ops.push(coq);
-                    obs.push("(false, ([], 0, [], 0))".to_string());
+                    obs.push("(false, ([], 0, [], 0, []))".to_string());
                     jops.push(json!({"op": j, "st": "Abort"}));
                     break;
                 }
